@@ -111,7 +111,8 @@ impl<'a> Printer<'a> {
         let balanced = { let mut d = 0i32; let mut ok = true; for &b in bytes { if b == b'(' { d += 1; } if b == b')' { d -= 1; if d < 0 { ok = false; } } } ok && d == 0 };
         let raw_parens = balanced && bytes.iter().any(|&b| b == b'(') && self.s.alt(2, &["escaped_parens", "balanced_raw_parens"]) == 1;
         for (i, &b) in bytes.iter().enumerate() {
-            let next_is_digit = bytes.get(i + 1).map(|c| c.is_ascii_digit()).unwrap_or(false);
+            // a short octal escape ends at the first character that is not an octal digit: 8 and 9 may follow it directly
+            let next_is_digit = bytes.get(i + 1).map(|c| (b'0'..=b'7').contains(c)).unwrap_or(false);
             if self.s.alt(self.plain_w * 3, &["none", "line_continuation"]) == 1 {
                 t.push(b'\\');
                 // a CR-only continuation directly before a raw LF would read as one CRLF: use LF there
